@@ -48,7 +48,7 @@ func (node *tagIncludeNode) Execute(ctx *ExecutionContext, writer TemplateWriter
 		// which is not ctx.template when that template extends another one)
 		includedFilename := node.referrer.set.resolveFilename(node.referrer, filename.String())
 
-		includedTpl, err2 := node.referrer.set.FromFile(includedFilename)
+		includedTpl, err2 := node.referrer.set.fromFileFor(node.referrer, filename.String())
 		if err2 != nil {
 			// if this is ReadFile error, and "if_exists" flag is enabled
 			// (only if it is the named template that is missing, not one it refers to)
@@ -102,7 +102,7 @@ func tagIncludeParser(doc *Parser, start *Token, arguments *Parser) (INodeTag, *
 
 		// Parse the parent
 		includeNode.filename = includedFilename
-		includedTpl, err := doc.template.set.FromFile(includedFilename)
+		includedTpl, err := doc.template.set.fromFileFor(doc.template, filenameToken.Val)
 		if err != nil {
 			// if this is ReadFile error, and "if_exists" token presents we should create and empty node
 			// (only if it is the named template that is missing, not one it refers to)
